@@ -13,6 +13,7 @@ from urllib import parse as _urlparse
 from harness.core import Property
 
 SCALARS = ("String", "Integer", "Boolean")
+NUMERIC = ("Float", "Decimal")   # oracle-only values: the Lean `Val` has no float / Decimal
 URL_PARTS = ["scheme", "netloc", "path", "params", "query", "fragment"]
 HTTP_PARTS = ["scheme", "username", "password", "hostname", "port", "path", "params", "query", "fragment"]
 
@@ -22,7 +23,40 @@ HTTP_PARTS = ["scheme", "username", "password", "hostname", "port", "path", "par
 
 def _scalar_cls(kind):
     import flatland
-    return {"String": flatland.String, "Integer": flatland.Integer, "Boolean": flatland.Boolean}[kind]
+    return {"String": flatland.String, "Integer": flatland.Integer, "Boolean": flatland.Boolean,
+            "Float": flatland.Float, "Decimal": flatland.Decimal}[kind]
+
+
+def _val(v):
+    """case value -> python value; numbers JSON cannot carry are tagged {"float": "2.5"} / {"decimal": "NaN"}"""
+    if isinstance(v, dict) and "float" in v:
+        return float(v["float"])
+    if isinstance(v, dict) and "decimal" in v:
+        import decimal
+        return decimal.Decimal(v["decimal"])
+    if isinstance(v, list):
+        return [_val(x) for x in v]
+    return v
+
+
+def _tagged(x):
+    if isinstance(x, dict):
+        return "float" in x or "decimal" in x or any(_tagged(y) for y in x.values())
+    if isinstance(x, list):
+        return any(_tagged(y) for y in x)
+    return False
+
+
+def _same(a, b):
+    """unchanged: identical, equal, or both the same kind of NaN"""
+    if a is b:
+        return True
+    try:
+        if a == b and type(a) is type(b):
+            return True
+    except ArithmeticError:
+        pass
+    return type(a) is type(b) and repr(a) == repr(b)
 
 
 def _raw_value(r):
@@ -94,7 +128,7 @@ def build(case):
         target._verif_raw_ok = ok
         target._verif_last = (op, obj)
         return target
-    if kind in SCALARS:
+    if kind in SCALARS + NUMERIC:
         schema = _scalar_cls(kind).named(b.get("name"))
         if "label" in b:
             schema = schema.using(label=b["label"])
@@ -162,7 +196,7 @@ def build(case):
 def mk_validator(vd):
     import flatland.validation as V
     from flatland.validation.number import Luhn10
-    d = dict(vd)
+    d = {k: (_val(x) if k in ("boundary", "minimum", "maximum", "valid_options") else x) for k, x in vd.items()}
     cls = d.pop("cls")
     for attr, m in d.pop("messages", []):
         d[attr] = m if isinstance(m, str) else tuple(m)
@@ -351,17 +385,20 @@ def run_case(case):
         ret = v(el, None)
         out["verdict"] = ret if isinstance(ret, bool) else "<%s>" % type(ret).__name__
     except Exception as e:
+        if type(e).__name__ == "CaseTimeout":
+            raise  # the harness' per-case alarm: a hang, not a Python exception of the library
         out["raise"] = type(e).__name__
     out["errors"] = list(el.errors)
+    out["warnings"] = list(el.warnings)
     if out["raise"] is not None:
         out["value_after"] = None
     elif is_container:
-        out["value_after"] = "<unchanged>" if el.value == before_v else "<changed>"
+        out["value_after"] = "<unchanged>" if _same(el.value, before_v) else "<changed>"
     else:
         out["value_after"] = _jval(el.value)
     out["_value_before"] = _jval(before_v) if not is_container else None
     out["_u_unchanged"] = el.u == before_u
-    out["_value_unchanged"] = (el.value == before_v and type(el.value) is type(before_v))
+    out["_value_unchanged"] = _same(el.value, before_v)
     out["_warnings_unchanged"] = list(el.warnings) == warnings_before
     return out, el, v
 
@@ -370,11 +407,20 @@ def run_case(case):
 
 
 def _family(x):
-    if isinstance(x, bool) or isinstance(x, int):
+    import decimal
+    if isinstance(x, (bool, int, float, decimal.Decimal)):
         return "num"
     if isinstance(x, str):
         return "str"
     return None
+
+
+def _sat(test):
+    """does the comparison hold?  (an operand that cannot be compared — a decimal NaN signals — satisfies nothing)"""
+    try:
+        return bool(test())
+    except ArithmeticError:
+        return False
 
 
 def _luhn_textbook(n):
@@ -446,7 +492,7 @@ def documented(case, el):
         # `in` between texts; a value that is not text is in no text (6dc976e: no exception)
         return (isinstance(el.value, str) and el.value in v["valid_options"]), ("fail", {})
     if cls == "ValueIn" and scalar:
-        return any(el.value == o for o in v["valid_options"]), ("fail", {})
+        return any(_sat(lambda o=o: el.value == o) for o in _val(v["valid_options"])), ("fail", {})
     if cls == "ShorterThan" and scalar:
         return len(el.u) <= v["maxlength"], ("exceeded", {})
     if cls == "LongerThan" and scalar:
@@ -454,24 +500,25 @@ def documented(case, el):
     if cls == "LengthBetween" and scalar:
         return v["minlength"] <= len(el.u) <= v["maxlength"], ("breached", {})
     if cls in ("ValueLessThan", "ValueAtMost", "ValueGreaterThan", "ValueAtLeast") and scalar:
-        bound = v.get("boundary", v.get("maximum", v.get("minimum")))
+        bound = _val(v.get("boundary", v.get("maximum", v.get("minimum"))))
         if el.value is None:
             return False, ("failure", {})
         if _family(bound) is None or _family(bound) != _family(el.value):
             return None, None
         val = el.value
-        ok = {"ValueLessThan": val < bound, "ValueAtMost": val <= bound,
-              "ValueGreaterThan": val > bound, "ValueAtLeast": val >= bound}[cls]
+        # a NaN (which a Decimal comparison even signals) satisfies no bound
+        ok = _sat({"ValueLessThan": lambda: val < bound, "ValueAtMost": lambda: val <= bound,
+                   "ValueGreaterThan": lambda: val > bound, "ValueAtLeast": lambda: val >= bound}[cls])
         return ok, ("failure", {})
     if cls == "ValueBetween" and scalar:
-        lo, hi, inc = v["minimum"], v["maximum"], v.get("inclusive", True)
+        lo, hi, inc = _val(v["minimum"]), _val(v["maximum"]), v.get("inclusive", True)
         key = "failure_inclusive" if inc else "failure_exclusive"
         if el.value is None:
             return False, (key, {})
         if not (_family(lo) == _family(hi) == _family(el.value) is not None):
             return None, None
         val = el.value
-        return ((lo <= val <= hi) if inc else (lo < val < hi)), (key, {})
+        return _sat((lambda: lo <= val <= hi) if inc else (lambda: lo < val < hi)), (key, {})
     if cls in ("MapEqual", "ValuesEqual", "UnisEqual") and kind == "fields":
         names = v["field_paths"]
         have = {f["name"] for f in b["fields"]}
@@ -479,12 +526,13 @@ def documented(case, el):
             return None, None
         els = [el[n] for n in names]
         if cls == "MapEqual":
-            tr = lambda e: (e.value, e.u)
+            tr = lambda e: e
         elif cls == "ValuesEqual":
             tr = lambda e: e.value
         else:
             tr = lambda e: e.u
-        ok = all(tr(e) == tr(els[0]) for e in els)
+        # "validates that two or more fields are equal": every further field equals the first (a NaN equals nothing)
+        ok = all(_sat(lambda e=e: tr(e) == tr(els[0])) for e in els[1:])
         if not all(isinstance(e.label, str) for e in els):
             return (True if ok else None), None
         return ok, ("unequal", {"labels": ", ".join(e.label for e in els[:-1]), "last_label": els[-1].label})
@@ -493,7 +541,7 @@ def documented(case, el):
         cont = el.parent.parent if isinstance(el.parent, Slot) else el.parent
         sibs = list(cont.children)
         i = [j for j, x in enumerate(sibs) if x is el][0]
-        dup = any((s.value == el.value and s.u == el.u) for s in sibs[:i])
+        dup = any(_sat(lambda s=s: s.value == el.value and s.u == el.u) for s in sibs[:i])
         return not dup, ("failure", {"position": i + 1, "container_label": cont.label})
     if cls in ("HasAtLeast", "HasAtMost", "HasBetween") and kind in ("List", "Array") and "index" not in b:
         n = len(list(el.children))
@@ -542,13 +590,19 @@ def documented(case, el):
         key = "both" if (missing and unexpected) else ("missing" if missing else "unexpected")
         return (not unexpected and not missing), (key, {"missing": txt(missing), "n_missing": len(missing),
                                                          "unexpected": txt(unexpected), "n_unexpected": len(unexpected)})
-    if cls == "Luhn10" and kind in ("Integer", "Boolean"):
+    if cls == "Luhn10" and kind in ("Integer", "Boolean", "Float", "Decimal"):
+        import decimal
         if el.value is None:
             return False, ("invalid", {})
-        if not isinstance(el.value, int):
+        if not isinstance(el.value, (int, float, decimal.Decimal)):
             return None, None  # a directly assigned value that is not a number
-        n = int(el.value)
-        return (n >= 0 and _luhn_textbook(n)), ("invalid", {})
+        # "a numeric value passes luhn10": only a non-negative whole finite number is a string of digits
+        try:
+            n = int(el.value)
+            whole = (n == el.value)
+        except (ValueError, OverflowError, ArithmeticError):
+            return False, ("invalid", {})
+        return (whole and n >= 0 and _luhn_textbook(n)), ("invalid", {})
     if cls == "IsEmail" and kind == "String":
         return _email_documented(el.value, v.get("non_local", True), v.get("local_part_pattern")), ("invalid", {})
     if cls == "URLValidator" and kind == "String":
@@ -652,11 +706,16 @@ def oracle_case(case):
         return fails
     if want == "no-raise":
         return fails
-    if obs["verdict"] is not want:
-        fails.append({"clause": "verdict-equals-documented-condition", "expected": want, "observed": obs["verdict"]})
-        return fails
     pre = list(case.get("pre_errors", []))
-    if want is True:
+    if obs["verdict"] is not want:
+        # the other clauses are still evaluated (against the verdict that WAS returned): a wrong verdict that also
+        # records something, warns or touches the value is more than the wrong verdict
+        fails.append({"clause": "verdict-equals-documented-condition", "expected": want, "observed": obs["verdict"],
+                      "_errors_unchanged": obs["errors"] == pre, "_warnings_unchanged": obs["_warnings_unchanged"],
+                      "_value_unchanged": obs["_value_unchanged"] and obs["_u_unchanged"]})
+        if obs["verdict"] is True and obs["errors"] != pre:
+            fails.append({"clause": "true-verdict-records-nothing", "expected": pre, "observed": obs["errors"]})
+    elif want is True:
         if obs["errors"] != pre:
             fails.append({"clause": "true-verdict-records-nothing", "expected": pre, "observed": obs["errors"]})
     else:
@@ -707,6 +766,10 @@ TEXTS = ["", " ", "a", "abc", "abcd", "abcde", "hello world", "é", "日本語",
 INTS = [0, 1, 2, 3, 4, 5, 9, 10, 17, 18, 59, 100, -1, -5, 4111111111111111, 79927398713, 79927398710, 10 ** 20, 26, 34, 91]
 
 
+NUM_TEXTS = ["inf", "-inf", "nan", "NaN", "sNaN", "1e999", "Infinity", "1.5", "-1.5", "4111111111111111.0", "4111111111111111", "18",
+             "18.0", "17.5", "0", "0.0", "4", "4.0", "3.999", "abc", "", " 5 ", "1e3", "79927398713", "2.50"]
+
+
 def rand_scalar_build(rng, kinds=SCALARS):
     kind = rng.choice(kinds)
     b = {"kind": kind, "name": rng.choice(["f", "age", "名", "x y", None])}
@@ -721,6 +784,8 @@ def rand_scalar_build(rng, kinds=SCALARS):
         b["set"] = rng.choice(INTS + ["12", " 7 ", "abc", "", "1.5", "-3", "٣"]) if rng.random() < 0.9 else rng.randint(-1000, 10 ** 6)
     elif kind == "Boolean":
         b["set"] = rng.choice([True, False, "1", "0", "yes", "", "maybe", "true", "f"])
+    elif kind in NUMERIC:
+        b["set"] = rng.choice(NUM_TEXTS)
     else:
         b["set"] = rng.choice(TEXTS) if rng.random() < 0.8 else "".join(rng.choice("ab é1") for _ in range(rng.randint(0, 12)))
     return b
@@ -759,6 +824,50 @@ def rand_scalar_case(rng):
         v["minimum"] = bound_for(rng, b["kind"])
         v["maximum"] = bound_for(rng, b["kind"])
         v["inclusive"] = rng.random() < 0.5
+    return {"v": v, "build": b}
+
+
+NUM_BOUNDS = [0, 1, 4, 18, -1, {"float": "4.0"}, {"float": "2.5"}, {"float": "inf"}, {"float": "nan"}, {"decimal": "4"},
+              {"decimal": "17.5"}, {"decimal": "NaN"}]
+
+
+def rand_numeric_case(rng):
+    """Float / Decimal elements (oracle-only): infinities, NaN / sNaN, non-integral and huge values against Luhn10, the
+    value-bound validators, ValueIn, ValuesEqual, NotDuplicated and the value-independent classes"""
+    kind = rng.choice(NUMERIC)
+    r = rng.random()
+    if r < 0.12:
+        typ = kind
+        fields = [{"name": nm, "type": typ, "set": rng.choice(NUM_TEXTS)} for nm in ("a", "b", "c")[:rng.randint(2, 3)]]
+        if rng.random() < 0.5:
+            fields[1]["set"] = fields[0]["set"]
+        return {"v": {"cls": rng.choice(["ValuesEqual", "MapEqual", "UnisEqual"]), "field_paths": [f["name"] for f in fields]},
+                "build": {"kind": "fields", "name": "form", "fields": fields}}
+    if r < 0.2:
+        n = rng.randint(2, 4)
+        vals = [rng.choice(["1.5", "1.50", "nan", "sNaN", "inf", "4", "4.0", "x"]) for _ in range(n)]
+        return {"v": {"cls": "NotDuplicated"}, "build": {"kind": "List", "name": "xs", "member": kind, "member_name": "m",
+                                                        "values": vals, "index": rng.randrange(n)}}
+    cls = rng.choice(["Luhn10", "Luhn10", "ValueLessThan", "ValueAtMost", "ValueGreaterThan", "ValueAtLeast", "ValueBetween",
+                      "ValueIn", "Present", "Converted", "IsTrue", "IsFalse", "ShorterThan"])
+    b = {"kind": kind, "name": rng.choice(["n", "amount"]), "set": rng.choice(NUM_TEXTS)}
+    if rng.random() < 0.1:
+        b["set"] = None
+    v = {"cls": cls}
+    if cls in ("ValueLessThan", "ValueGreaterThan"):
+        v["boundary"] = rng.choice(NUM_BOUNDS)
+    elif cls == "ValueAtMost":
+        v["maximum"] = rng.choice(NUM_BOUNDS)
+    elif cls == "ValueAtLeast":
+        v["minimum"] = rng.choice(NUM_BOUNDS)
+    elif cls == "ValueBetween":
+        v["minimum"], v["maximum"] = rng.choice(NUM_BOUNDS), rng.choice(NUM_BOUNDS)
+        v["inclusive"] = rng.random() < 0.5
+    elif cls == "ValueIn":
+        v["valid_options"] = rng.sample([None, 0, 1, 4, {"float": "1.5"}, {"float": "nan"}, {"decimal": "4"}, {"decimal": "NaN"},
+                                         {"decimal": "sNaN"}, {"float": "inf"}, "4"], rng.randint(1, 5))
+    elif cls == "ShorterThan":
+        v["maxlength"] = 3
     return {"v": v, "build": b}
 
 
@@ -1140,7 +1249,7 @@ def with_pre_errors(rng, case):
     return case
 
 
-_MAKERS = [(rand_scalar_case, 0.38), (rand_seq_case, 0.1), (rand_dup_case, 0.1), (rand_fields_case, 0.1),
+_MAKERS = [(rand_numeric_case, 0.08), (rand_scalar_case, 0.30), (rand_seq_case, 0.1), (rand_dup_case, 0.1), (rand_fields_case, 0.1),
            (rand_dict_case, 0.12), (rand_net_case, 0.14), (hostile_case, 0.06)]
 
 
@@ -1168,6 +1277,7 @@ class C15(Property):
         "decides_setWithKnownFields", "decides_setWithAllFields", "decides_luhn10")]
     generated_obligations = ["Flatland.C15.Proofs.shapes_ok"]
     quick_n = 100000
+    case_timeout = 30   # per-case alarm (run_impl and oracle each): a hang is reported as an oracle failure
     thorough_n = 800000
     trusted_base = [
         "the element view (value, u, label, siblings, raw keys, resolved field paths) is read off the real element by the harness and re-asserted on every run",
@@ -1177,7 +1287,7 @@ class C15(Property):
         "str.isspace code points and IsEmail.domain_pattern are re-implemented by hand (pinned by the extractor)",
     ]
     assumptions = [
-        "elements are String/Integer/Boolean scalars, List/Array of them, Dict of them; validator parameters are ints/strs/bools",
+        "the model covers String/Integer/Boolean scalars, List/Array of them, Dict of them, with int/str/bool parameters; Float and Decimal elements and float/Decimal parameters (inf, nan, sNaN, non-integral, 1e999) are generated but oracle-only (tag model=oracle-only): the Lean `Val` has no such numbers",
         "MapEqual field paths are plain child names resolved by the harness (path evaluation is C14's subject)",
         "network validators on non-text values are not compared with the model",
         "never generated: custom comparator/transform/domain_pattern/urlparse objects, note_warning, NotDuplicated on container members, MapEqual with nested or '..' paths (path evaluation is C14's), ValueIn with set/dict containers (a str container is modelled)",
@@ -1191,7 +1301,7 @@ class C15(Property):
     technique = "Lean 4 model + theorems (refinement to the documented predicate per class) + differential correspondence + Python oracle"
     rule = ("every validator class x random parameterisations x String/Integer/Boolean elements set with None / adapted / unadapted text / blank / never set, "
             "List/Array with 0-5 members, members with duplicates at random positions, Dicts set with dict / pairs / flat / non-iterable / malformed raw values, "
-            "e-mail and URL shape pools plus random assembly, e-mail domains of mixed ASCII / non-ASCII labels steered to every side of 253 characters as text and in IDN form (incl. text <= 253 < IDN), optional local_part_pattern; 6% hostile stream (validator on an element kind it is not documented for, missing field path, "
+            "Float/Decimal elements (8% of cases: inf, nan, sNaN, 1e999, 1.5, 4111111111111111.0 …) against Luhn10, the value-bound validators, ValueIn, ValuesEqual, NotDuplicated; e-mail and URL shape pools plus random assembly, e-mail domains of mixed ASCII / non-ASCII labels steered to every side of 253 characters as text and in IDN form (incl. text <= 253 < IDN), optional local_part_pattern; 6% hostile stream (validator on an element kind it is not documented for, missing field path, "
             "negative counts, None bounds, ValueIn with a str as container, illegal discard_parts names); 7% of cases override message attributes (incl. the empty text, plural triples), 4% of scalar elements get value/u assigned directly; Dicts are also set from one-shot iterators, generators and dict views, SparseDict 15%; NotDuplicated also on children of a Dict; 20% of cases start with pre-existing errors (incl. the very message).  non-trivial = the validator returned a verdict")
 
     def corpus(self):
@@ -1215,6 +1325,21 @@ class C15(Property):
         for n_lab in (14, 15, 25):
             out.append({"v": {"cls": "IsEmail"}, "build": {"kind": "String", "name": "email",
                                                           "set": "bob@" + ".".join(["snow\u2603man"] * n_lab) + ".com"}})
+        # fixed 2bd63cf (audit rev6 C15-F1): Luhn10 on non-integral / NaN / infinite numbers (used to hang or raise)
+        for kind, txt in (("Float", "1e999"), ("Float", "inf"), ("Float", "nan"), ("Float", "1.5"), ("Float", "4111111111111111.0"),
+                          ("Decimal", "sNaN"), ("Decimal", "Infinity"), ("Decimal", "4111111111111111"), ("Decimal", "17.5")):
+            out.append({"v": {"cls": "Luhn10"}, "build": {"kind": kind, "name": "cc", "set": txt}})
+        # fixed 4b20261 (C15-F2): value-bound validators, ValueIn, ValuesEqual on decimal NaN / sNaN
+        for txt in ("NaN", "sNaN"):
+            out.append({"v": {"cls": "ValueLessThan", "boundary": 4}, "build": {"kind": "Decimal", "name": "n", "set": txt}})
+            out.append({"v": {"cls": "ValueBetween", "minimum": 1, "maximum": 5}, "build": {"kind": "Decimal", "name": "n", "set": txt}})
+            out.append({"v": {"cls": "ValueIn", "valid_options": [1, {"decimal": "4"}]}, "build": {"kind": "Decimal", "name": "n", "set": txt}})
+            out.append({"v": {"cls": "ValuesEqual", "field_paths": ["a", "b"]},
+                        "build": {"kind": "fields", "name": "form", "fields": [{"name": "a", "type": "Decimal", "set": txt},
+                                                                               {"name": "b", "type": "Decimal", "set": txt}]}})
+        # open D-C15-10: NotDuplicated next to a signaling NaN
+        out.append({"v": {"cls": "NotDuplicated"}, "build": {"kind": "List", "name": "xs", "member": "Decimal", "member_name": "m",
+                                                            "values": ["sNaN", "1.50", "4.0"], "index": 2}})
         # seeded C15-dict-raw-kept-on-failed-set: a stray-key mapping, then something unadaptable
         for g in ("int", "none", "text", "ints"):
             for cls in ("SetWithKnownFields", "SetWithAllFields"):
@@ -1300,6 +1425,17 @@ class C15(Property):
     def has_model(self, case):
         def ok(x):
             return not (isinstance(x, dict) and "other" in x)
+        if _tagged(case["v"]):
+            return False  # float / Decimal parameters: oracle only
+
+        def has_other(x):
+            if isinstance(x, dict):
+                return "other" in x or any(has_other(y) for y in x.values())
+            if isinstance(x, list):
+                return any(has_other(y) for y in x)
+            return False
+        if has_other(case["view"]):
+            return False  # float / Decimal / bytes … values anywhere in the view: oracle only
         view = case["view"]
         if not ok(view.get("value")) or not ok(view.get("label")):
             return False
@@ -1326,8 +1462,14 @@ class C15(Property):
         view = case["view"]
         cl = failure.get("clause")
         if v["cls"] == "HTTPURLValidator" and view.get("value") is None and case["build"]["kind"] == "String" \
-                and cl == "verdict-equals-documented-condition" and failure.get("observed") is True:
+                and cl == "verdict-equals-documented-condition" and failure.get("observed") is True \
+                and failure.get("_errors_unchanged") and failure.get("_warnings_unchanged") and failure.get("_value_unchanged"):
             return "KF-C15-a"
+        b = case["build"]
+        if v["cls"] == "NotDuplicated" and b.get("member") == "Decimal" and "index" in b \
+                and cl == "returns-a-verdict-without-raising" and failure.get("observed") == "InvalidOperation" \
+                and any(isinstance(x, str) and x.strip().lower() == "snan" for x in b["values"][:b["index"] + 1]):
+            return "D-C15-10"
         return None
 
     def nontrivial(self, case, obs):
@@ -1346,6 +1488,17 @@ class C15(Property):
                 t.append("unadapted-text")
         if case.get("pre_errors"):
             t.append("pre-errors")
+        # how often the model / the theorems apply
+        model = self.has_model(case)
+        t.append("model=" + ("yes" if model else "oracle-only"))
+        if b["kind"] in NUMERIC or b.get("member") in NUMERIC:
+            t.append("numeric-element")
+        if model and obs["raise"] is None and v["cls"] not in ("URLValidator", "HTTPURLValidator", "URLCanonicalizer"):
+            t.append("hyp:decides(documented=some)~holds")  # the model returned a verdict on a class with a spec
+        if obs["raise"] is None and obs["verdict"] is False and len(obs["errors"]) > len(case.get("pre_errors", [])):
+            t.append("hyp:messages_total=holds")
+        if b.get("history"):
+            t.append("history=%d" % len(b["history"]))
         if v["cls"] == "IsEmail":
             ec = email_class(view.get("value"))
             if ec:
